@@ -173,6 +173,7 @@ loop:
 	} else if err := os.Remove(sockpath); err != nil {
 		logger.Printf("failed to remove socket %s: %v", sockpath, err)
 	}
+	verifPause("daemon:socket-removed", opts.Ready)
 	if st != nil {
 		err = st.Close()
 		if err != nil {
